@@ -127,6 +127,8 @@ CLAIMS = {
             "strategy against the language semantics, not a shape of the code).", "§4 C03"),
 }
 
+EXTRAS = {'C03': ' Also: a non-optional multiline expectation yields only after it consumed a line.', 'C06': " Also: consumed-line conservation in the tokenizer (every read line stored once or consumed as a delimiter), the closing-fence predicate is a prefix test against the opening fence, and the line parser's exact `$ `/`> ` prefixes with unmodified body text.", 'C08': " Also: the canonical rendering's ` (escaped)` decision (has_unprintable) and its rendering (escaped_printable) classify characters identically.", 'C09': ' Also: the escape-introducer and marker rules shared with C11, the sibling agreement of the three character-class predicates, ` (no-eol)` never after ` (escaped)` (guard as in OutputStream::to_output_string), and the command written back without trim/replace.', 'C10': ' Also: the stored original flows from the line through trim_newlines only, parser and update generator agree on which blocks carry a test case, commands are written back verbatim and re-read with the exact `$ `/`> ` prefixes.', 'C11': ' Also: the escape decision, the backslash-doubling flag and has_unprintable use one character class, and Escaper dispatches each mode to its own functions.', 'C12': ' Also: option dumps precede function/variable dumps, and the state directory path reaches the template unmodified in a double-quoted position.', 'C13': " Also: in the Cram script the user's expression is followed by an empty line before scrut's footer.", 'C14': ' Also: the remaining document time is deadline.map(total saturating subtraction) (never `no limit` after the deadline), and Popen::kill dominates every ExitStatus::Timeout result.', 'C15': ' Also: the compared skip code is looked up on the test case of the current loop iteration.', 'C16': ' Also: each key of the command-line layer is control-dependent only on its own flag(s).', 'C18': ' Also: the bash state file is written inside the owned TempDir (path unmodified, double-quoted position) and a timed-out child is killed so that it cannot re-create removed directories.', 'C20': ' Also: every zip(outputs, testcases) is positional (no filter/skip on either side) and no Result of the document discovery/reading layer is dropped or logged-and-skipped.', 'C02': " C01's accounting obligations (cursors move only past recorded lines/expectations; ranged Matched records non-empty for non-optional expectations) are reported under C02 as well.", 'C01': ' Also: a ranged Matched record covers at least one line unless the expectation is optional; has_differences may equivalently be `count_matched < lines.len()` if Diff::new counts exactly one per Matched record.'}
+
 PENDING = "static rules for this property are designed (DESIGN.md §4) but not yet implemented in this revision"
 
 
@@ -137,6 +139,7 @@ def main():
         pid = p["id"]
         if pid in CLAIMS and os.path.exists(os.path.join(HERE, "analysis", "rules", pid.lower() + ".py")):
             text, rest, ref = CLAIMS[pid]
+            text = text + EXTRAS.get(pid, "")
             checks.append({
                 "property_id": pid,
                 "quick_cmd": "./vcheck %s --tier quick" % pid,
